@@ -76,6 +76,17 @@ func Check(obs *Obs, lin *LinStats) []Finding {
 		}
 	}
 	if !obs.Complete {
+		// a call that entered the mock and never came back delegated nothing
+		// the caller could observe (the same event C06 reports as a deadlock)
+		if !obs.Sim.Aborted() || len(obs.Sim.Viol) > 0 {
+			for _, r := range obs.Recs {
+				if r.Op.Kind == OpCall && !r.NilFunc && r.InvSeq > 0 && r.Outcome == "aborted" && r.CbCount == 0 {
+					add("C03", "call-never-delegated", "%s (op %d, task %d) entered the mock and never reached %sFunc nor returned: the run is stuck (%s)",
+						r.Op.Method, r.Op.ID, r.Task, r.Op.Method, firstViol(obs))
+					break
+				}
+			}
+		}
 		return fs
 	}
 
@@ -170,6 +181,13 @@ func Check(obs *Obs, lin *LinStats) []Finding {
 	// ---- C05: conservation, program order, prefix, linearizability
 	fs = append(fs, checkConcurrent(obs, lin)...)
 	return fs
+}
+
+func firstViol(obs *Obs) string {
+	if len(obs.Sim.Viol) == 0 {
+		return "no progress"
+	}
+	return obs.Sim.Viol[0].Class
 }
 
 func hasResetFor(obs *Obs, method string) bool {
